@@ -117,6 +117,10 @@ def ensure_facts(fresh=False, repo=None):
     try:
         if os.path.exists(cached) and not fresh:
             info['cached'] = True
+            try:
+                os.utime(cached)      # most recently used: not the next one to be pruned
+            except OSError:
+                pass
         else:
             if fresh:
                 tgt = tempfile.mkdtemp(prefix='afftgt-')
@@ -135,9 +139,17 @@ def ensure_facts(fresh=False, repo=None):
                 if fresh:
                     shutil.rmtree(tgt, ignore_errors=True)
             # keep the cache small
-            ents = sorted((os.path.getmtime(os.path.join(facts_dir, e)), e) for e in os.listdir(facts_dir) if e.endswith('.json'))
+            def _mt(e):
+                try:
+                    return os.path.getmtime(os.path.join(facts_dir, e))
+                except OSError:
+                    return 0.0
+            ents = sorted((_mt(e), e) for e in os.listdir(facts_dir) if e.endswith('.json') and not e.startswith('fixture-'))
             for _, e in ents[:-12]:
-                os.remove(os.path.join(facts_dir, e))
+                try:
+                    os.remove(os.path.join(facts_dir, e))   # another process (a parallel scratch run) may have pruned it already
+                except OSError:
+                    pass
     finally:
         fcntl.flock(lock, fcntl.LOCK_UN)
         lock.close()
@@ -172,6 +184,10 @@ def ensure_fixture_facts(repo=None):
     fcntl.flock(lock, fcntl.LOCK_EX)
     try:
         if os.path.exists(cached):
+            try:
+                os.utime(cached)
+            except OSError:
+                pass
             return cached
         d = tempfile.mkdtemp(prefix='afffix-')
         try:
@@ -208,9 +224,17 @@ def ensure_fixture_facts(repo=None):
             shutil.move(f, cached)
         finally:
             shutil.rmtree(d, ignore_errors=True)
-        ents = sorted((os.path.getmtime(os.path.join(facts_dir, e)), e) for e in os.listdir(facts_dir) if e.startswith('fixture-'))
+        def _mt(e):
+            try:
+                return os.path.getmtime(os.path.join(facts_dir, e))
+            except OSError:
+                return 0.0
+        ents = sorted((_mt(e), e) for e in os.listdir(facts_dir) if e.startswith('fixture-'))
         for _, e in ents[:-8]:
-            os.remove(os.path.join(facts_dir, e))
+            try:
+                os.remove(os.path.join(facts_dir, e))
+            except OSError:
+                pass
         return cached
     finally:
         fcntl.flock(lock, fcntl.LOCK_UN)
